@@ -638,9 +638,9 @@ impl<'a> Parser<'a> {
     ///
     /// ```
     pub const fn trim(mut self) -> Self {
-        parsing! {self, FromBoth;
-            self.str = crate::string::trim(self.str);
-        }
+        let mut this = self.trim_end().trim_start();
+        this.parse_direction = ParseDirection::FromBoth;
+        this
     }
 
     /// Removes whitespace from the start of the parsed string.
@@ -718,9 +718,10 @@ impl<'a> Parser<'a> {
     where
         P: Pattern<'p>,
     {
-        parsing! {self, FromBoth;
-            self.str = crate::string::trim_matches(self.str, needle);
-        }
+        // trimming the start before the end, like `str::trim_matches` does
+        let mut this = self.trim_start_matches(needle).trim_end_matches(needle);
+        this.parse_direction = ParseDirection::FromBoth;
+        this
     }
 
     /// Repeatedly removes all instances of `needle` from the start of the parsed string.
